@@ -191,7 +191,7 @@ def pooled_file(header, render_cases, body):
     terms = render_cases(zmap.__getitem__, mmap.__getitem__)
     return (header + "Definition P : list Z := [%s].\n" % ";".join("(%d)%%Z" % v for v in zs)
             + "Definition M : list string := [%s].\n" % ";".join(coq_str(m) for m in ms)
-            + "Definition CS := [\n%s].\n" % ";\n".join(terms) + body)
+            + "Definition CS : list tcase := [\n%s].\n" % ";\n".join(terms) + body)
 
 
 def coq_parallel(jobs, workers=None):
